@@ -713,6 +713,137 @@ Proof.
       inversion M; subst; clear M; (split; [|simpl; auto]);
       unfold SIrx, rx_in_flight, cen_pdu; simpl; rewrite Cur, N2, PP;
       (split; [rewrite A; reflexivity|]); (split; [congruence|]); (split; [intros q Q; inversion Q; subst; exact P4|]).
-    + split.
-      * rewrite app_assoc, map_app, D. simpl. rewrite PK, filter_app_one.
+    + assert (S1 : storable p = true) by (unfold storable; rewrite NE, L0; reflexivity).
+      assert (S2 : counted p = true) by (unfold counted; rewrite NE; reflexivity).
+      split.
+      * rewrite app_assoc, map_app, D. simpl. rewrite PK, filter_app_one, S1. reflexivity.
+      * rewrite filter_app_one, E, S2, nlen_app_one. reflexivity.
+    + assert (S1 : storable p = false) by (unfold storable; rewrite NE, L0; reflexivity).
+      assert (S2 : counted p = true) by (unfold counted; rewrite NE; reflexivity).
+      split.
+      * rewrite D, filter_app_one, S1, app_nil_r. reflexivity.
+      * rewrite filter_app_one, E, S2, nlen_app_one. reflexivity.
+    + assert (S1 : storable p = false) by (unfold storable; rewrite NE; reflexivity).
+      assert (S2 : counted p = false) by (unfold counted; rewrite NE; reflexivity).
+      split.
+      * rewrite D, filter_app_one, S1, app_nil_r. reflexivity.
+      * rewrite filter_app_one, E, S2, app_nil_r. lia.
+    + assert (S1 : storable p = false) by (unfold storable; rewrite NE; reflexivity).
+      assert (S2 : counted p = false) by (unfold counted; rewrite NE; reflexivity).
+      split.
+      * rewrite D, filter_app_one, S1, app_nil_r. reflexivity.
+      * rewrite filter_app_one, E, S2, app_nil_r. lia.
+  - (* retransmission *)
+    inversion M; subst; clear M. simpl. split; auto.
+    unfold SIrx. simpl. repeat split; auto. lia.
+Qed.
+
+(* the central sees the peripheral's NESN *)
+Definition cen_ack (c : central) (b : bool) : central :=
+  if Bool.eqb b (c_sn c) then c
+  else mkCen (negb (c_sn c)) (c_nesn c) None (c_done c ++ [cen_pdu c]) (c_acc c).
+Definition cen_new (c : central) (h : N) (body : list N) : central :=
+  if Bool.eqb (has h sn_flag) (c_nesn c)
+  then mkCen (c_sn c) (negb (c_nesn c)) (c_cur c) (c_done c) (c_acc c ++ [(llid h, body)])
+  else c.
+Lemma cen_recv_split c h body : cen_recv c h body = cen_new (cen_ack c (has h nesn_flag)) h body.
+Proof. reflexivity. Qed.
+
+Lemma SIrx_cen_ack c m g :
+  SIrx c m g -> c_cur c <> None -> SIrx (cen_ack c (m_nesn m)) m g.
+Proof.
+  intros (A & B & C & D & E) Cur. unfold cen_ack.
+  destruct (Bool.eqb (m_nesn m) (c_sn c)) eqn:X.
+  - unfold SIrx. auto.
+  - unfold SIrx, rx_in_flight in *. simpl. rewrite X in A.
+    assert (Y : Bool.eqb (m_nesn m) (negb (c_sn c)) = true) by (destruct (m_nesn m), (c_sn c); simpl in *; congruence).
+    rewrite Y. repeat split; auto.
+    + rewrite app_nil_r. exact A.
+    + intros; discriminate.
+    + intros; discriminate.
+Qed.
+
+(* frame: only the receive fields of central, monitor and history matter *)
+Lemma SIrx_frame c m g c' m' g' :
+  SIrx c m g -> c_sn c' = c_sn c -> c_cur c' = c_cur c -> c_done c' = c_done c ->
+  m_nesn m' = m_nesn m -> m_rxq m' = m_rxq m ->
+  g_acc g' = g_acc g -> g_freed g' = g_freed g -> g_rxc g' = g_rxc g -> SIrx c' m' g'.
+Proof.
+  unfold SIrx, rx_in_flight, cen_pdu. intros H A B C D E F G I. rewrite A, B, C, D, E, F, G, I. exact H.
+Qed.
+
+Lemma SItx_frame c m g c' m' g' :
+  SItx c m g -> c_nesn c' = c_nesn c -> c_acc c' = c_acc c ->
+  m_txq m' = m_txq m -> m_cur m' = m_cur m -> m_sn m' = m_sn m -> m_txdead m' = m_txdead m ->
+  g_comm g' = g_comm g -> g_popped g' = g_popped g -> g_txc g' = g_txc g -> SItx c' m' g'.
+Proof.
+  unfold SItx, tx_in_flight. intros H A B C D E F G I J. rewrite A, B, C, D, E, F, G, I, J. exact H.
+Qed.
+
+(* ---- transmit direction ---- *)
+
+Lemma data_matches_inv o p s sz h b :
+  data_matches o p s sz h b = true -> has h sn_flag = s /\ (llid h, b) = p.
+Proof.
+  unfold data_matches. rewrite !andb_true_iff. intros [[[[[A B] C] D] E] F].
+  apply N.eqb_eq in A. apply eqb_prop in B. apply leqb_eq in D. split; auto.
+  destruct p; simpl in *. congruence.
+Qed.
+
+Lemma empty_matches_inv o s sz h b :
+  empty_matches o s sz h b = true -> has h sn_flag = s /\ b = [].
+Proof.
+  unfold empty_matches. rewrite !andb_true_iff. intros [[[[[A B] C] D] E] F].
+  apply eqb_prop in B. apply leqb_eq in D. auto.
+Qed.
+
+Lemma check_resp_nesn tag m sz h b m' :
+  check_resp tag m sz h b = (Ok, m') ->
+  has h nesn_flag = m_nesn m /\ m_nesn m' = m_nesn m /\ m_rxq m' = m_rxq m /\ m_o m' = m_o m.
+Proof.
+  unfold check_resp. intros H.
+  destruct (Bool.eqb (has h nesn_flag) (m_nesn m)) eqn:E; simpl in H; [|discriminate].
+  apply eqb_prop in E. split; auto.
+  destruct (m_txdead m); [inversion H; subst; auto|].
+  destruct (m_cur m).
+  - destruct (m_txq m).
+    + destruct (empty_matches _ _ _ _ _); inversion H; subst; simpl; auto.
+    + destruct (data_matches _ _ _ _ _ _); inversion H; subst; simpl; auto.
+  - destruct (empty_matches _ _ _ _ _); inversion H; subst; simpl; auto.
+  - destruct (m_txq m).
+    + inversion H.
+    + destruct (data_matches _ _ _ _ _ _); inversion H; subst; simpl; auto.
+Qed.
+
+Lemma counted_empty (x : N) : counted (x, []) = false.
+Proof. reflexivity. Qed.
+
+(* the response: lost, or seen by the central *)
+Lemma SItx_resp c m g tag sz h b m' :
+  SItx c m g -> check_resp tag m sz h b = (Ok, m') ->
+  SItx c m' g /\ SItx (cen_new c h b) m' g.
+Proof.
+  intros (D & St & Fc & Ca & Co & Tc) H. unfold check_resp in H.
+  destruct (negb (Bool.eqb (has h nesn_flag) (m_nesn m))); [discriminate|]. rewrite D in H.
+  unfold cen_new.
+  destruct (m_cur m) as [|se|sd] eqn:Ec.
+  - (* a new PDU is sent *)
+    destruct (m_txq m) as [|p t] eqn:Eq.
+    + destruct (empty_matches (m_o m) (m_sn m) sz h b) eqn:EM; inversion H; subst; clear H.
+      destruct (empty_matches_inv _ _ _ _ _ EM) as (Hs & Hb). subst b.
+      rewrite Hs, St, eqb_reflx.
+      split; unfold SItx, tx_in_flight in *; simpl; rewrite ?Ec, ?Eq in *; simpl in *; repeat split; auto.
+      rewrite filter_app_one, counted_empty, app_nil_r. exact Ca.
+    + destruct (data_matches (m_o m) p (m_sn m) sz h b) eqn:DM; inversion H; subst; clear H.
+      destruct (data_matches_inv _ _ _ _ _ _ DM) as (Hs & Hb).
+      rewrite Hs, St, eqb_reflx. inversion Fc as [|? ? Fp Ft]; subst.
+      split; unfold SItx, tx_in_flight in *; simpl; rewrite ?Ec, ?Eq in *; simpl in *.
+      * rewrite <- St, eqb_reflx. repeat split; auto; try discriminate.
+      * assert (X : Bool.eqb (negb (m_sn m)) (m_sn m) = false) by (destruct (m_sn m); reflexivity).
+        rewrite X. repeat split; auto; try discriminate.
+        rewrite filter_app_one, Fp, Ca, app_nil_r. reflexivity.
+  - (* the empty PDU in flight again *)
+    destruct (empty_matches (m_o m) se sz h b) eqn:EM; inversion H; subst; clear H.
+    destruct (empty_matches_inv _ _ _ _ _ EM) as (Hs & Hb). subst b.
+    split; [unfold SItx, tx_in_flight; rewrite Ec; auto 10|].
 Show.
